@@ -239,7 +239,9 @@ func c17Page(rt *rapid.T) (files map[string]string, page string, markers []strin
 		// (percent signs: what is written to the response is data, never a format)
 		b.WriteString("<p style=\"width: 100%;\">" + m + " 50% off %d %s %% – Zoë’s café</p>\n")
 	}
-	fault := rapid.SampledFrom([]string{"{{ zzMissing }}", "{{ 1 / 0 }}", "{{ name + 1 }}", "{{ name.nosuchfn() }}", "{{ {a: 1}.zz }}"}).Draw(rt, "fault")
+	long := "zz" + strings.Repeat("VeryLongIdentifier_", 16) // messages that embed a name can be long: shown whole or not at all
+	fault := rapid.SampledFrom([]string{"{{ zzMissing }}", "{{ 1 / 0 }}", "{{ name + 1 }}", "{{ name.nosuchfn() }}", "{{ {a: 1}.zz }}",
+		"{{ " + long + " }}", "{{ {a: 1}." + long + " }}", "{{ name." + long + "() }}"}).Draw(rt, "fault")
 	shape := rapid.SampledFrom([]string{"ok", "ok-layout", "top", "in-loop", "in-layout", "in-component", "in-slot", "missing"}).Draw(rt, "shape")
 	note = shape
 	page = "page"
